@@ -211,7 +211,10 @@ CLAIMED.update({
                 "after the repair D15/D20; C01_sh0w / C01_nomatch / C01_final: without the obsolete D14 and D20 hypotheses; C01_wide: the "
                 "union Scope3.c01_scope_wide, the predicate the runner evaluates). The runner marks 92-100 % of the generated rules as "
                 "inside the proved scope for every switch set (the default switches: 1251 of 1340 = 93 %); every generated rule outside it "
-                "is in a listed class (counted per reason in the evidence). Outside (the listed classes D13, D16, D17) "
+                "is in a listed class (counted per reason in the evidence) -- and C01_outside proves it: scope_complete (every loaded rule "
+                "outside the classifiers known_d13 / known_d16 / known_d17 is inside the scope) and outside_listed_classes_sound (for EVERY "
+                "loadable rule, all 16 switch sets, every document: outside the three listed classes optimise returns and the verdict "
+                "is unchanged). Inside the listed classes D13, D16, D17 "
                 "the model is tied to the crate by the correspondence: "
                 "random rules, forced rules and coverage families x documents x all 16 switch sets, the OPTIMISED TREES compared "
                 "structurally, and every crate-side verdict change must be reproduced by the model AND accepted by the executable "
